@@ -16,8 +16,8 @@ output order: omit-tag guard, attributes left to right, then the content.
 """
 from __future__ import annotations
 
-from .env import (EXISTS_CAUGHT, PIPE_CAUGHT, Handler, Html, Probe,
-                  default_marker)
+from .env import (EXISTS_CAUGHT, PIPE_CAUGHT, BadHtml, BadIter, Handler,
+                  Html, Probe, default_marker)
 
 
 class ModelRaise(Exception):
@@ -150,6 +150,13 @@ class Model:
             return None
         if isinstance(v, Html):
             return RawStr(v.s)
+        if isinstance(v, BadHtml):
+            try:
+                return RawStr(v.__html__())     # raises
+            except BaseException as exc:
+                self.fail_stack[id(exc)] = list(self.use_stack)
+                self.fail_info[id(exc)] = (v.site, self.fn_depth)
+                raise
         if isinstance(v, RawStr):
             return v
         if isinstance(v, bool) or not isinstance(v, (str, int, float)):
@@ -265,7 +272,13 @@ class Model:
                 return
         if n["repeat"] is not None:
             seq = self.ev(n["repeat"][1])
-            items = list(seq) if seq is not None else []
+            try:
+                items = list(seq) if seq is not None else []
+            except BaseException as exc:
+                if isinstance(seq, BadIter):
+                    self.fail_stack[id(exc)] = list(self.use_stack)
+                    self.fail_info[id(exc)] = (seq.site, self.fn_depth)
+                raise
             for _ in items:
                 self.body(n)
             return
